@@ -896,6 +896,13 @@ class Machine:
                     return self.ctx.alloc("iter", dict_keys(self, c)), True
             if isinstance(v, VSeq):
                 return self.ctx.alloc("iter", v), True
+            if isinstance(v, VPy) and isinstance(v.obj, tuple) and v.obj[0] == "reversed":
+                inner = v.obj[1]
+                sv0 = self.seq_value(inner) if not isinstance(inner, VSeq) else inner
+                revf = self.world.spec_fns.get("rev_of")
+                if sv0 is None or revf is None:
+                    raise EngineError("iteration over reversed(x) needs the spec function rev_of(sequence)")
+                return self.ctx.alloc("iter", revf(sv0)), True
             if isinstance(v, VOpt) and isinstance(v.sort.elem, SeqSort):  # narrowed by an earlier `is None` test
                 return self.ctx.alloc("iter", v.sort.elem.wrap(v.sort.val(v.term))), True
             raise EngineError(f"cannot iterate over {v!r}")
